@@ -61,6 +61,7 @@ def random_super_case(rng, algo, max_obj, max_sp, max_fam, coherent_only=True, c
     case = {"kind": "super", "algo": algo, "G": Gn, "S": Sn, "leafmap": lm,
             "costs": cost or gen.random_cost(rng, plain=False, coherent_only=coherent_only),
             "syn": gen.random_syntenies(rng, list(lm), max_fam, ordered=ordered, consistent_p=consistent_p if ordered else 1.0)}
+    case["costs"] = gen.tame(case["costs"], len(lm))
     if rng.random() < 0.5 and not isinstance(Gn, str):
         case["syn"] = gen.clade_syntenies(rng, Gn, rng.randint(1, max_fam), ordered=ordered)
     if ordered and rng.random() < root_order_p and not isinstance(Gn, str):
